@@ -79,6 +79,10 @@ def build_bc(kind, gspec):
     per = grid_periodic(gspec)
     out = {}
     for name, p in zip(names, per):
+        if isinstance(kind, dict) and any("COORD" in str(v) for v in kind.values()) and not p:
+            others = [n for n in names if n != name]
+            out[name] = {k: str(v).replace("COORD", others[0] if others else "0.5") for k, v in kind.items()}
+            continue
         if p:
             out[name] = "periodic"
         elif isinstance(kind, dict) and "low" in kind:
@@ -261,14 +265,18 @@ def _val(x):
     return x
 
 
-def points_for(gspec, seed, n):
-    """Query points well inside the grid (membership at the boundary is ill-conditioned)."""
+def points_for(gspec, seed, n, outside=False):
+    """Query points well inside the grid (membership at the boundary is ill-conditioned); with `outside` one more
+    point clearly beyond the upper end of every axis, where the fill value is what interpolation returns."""
     rng = np.random.default_rng(seed)
     g = build_grid(gspec)
     lo = np.array([b[0] for b in g.axes_bounds], dtype=float)
     hi = np.array([b[1] for b in g.axes_bounds], dtype=float)
     u = rng.uniform(0.02, 0.98, size=(n, g.num_axes))
-    return lo + u * (hi - lo)
+    pts = lo + u * (hi - lo)
+    if outside:
+        pts = np.concatenate([pts, (hi + 0.75 * (hi - lo))[None, :]])
+    return pts
 
 
 def perform(op, R: Live):
@@ -285,31 +293,41 @@ def perform(op, R: Live):
             bc = build_bc(op["bc"], gspec)
             kw = dict(op.get("kwargs") or {})
             via = op["via"]
+            # time-dependent conditions take the time through `args`
+            akw = {"args": {"t": float(op.get("t", 0.5))}} if "t" in str(op["bc"]) and "expression" in str(op["bc"]) else {}
             if via == "apply":
-                return {"val": _val(f.apply_operator(op["name"], bc, backend=op["backend"], **kw))}
+                return {"val": _val(f.apply_operator(op["name"], bc, backend=op["backend"], **akw, **kw))}
             if via == "method":
                 meth = getattr(f, op["name"], None)
                 if meth is None:
                     return SKIP
-                return {"val": _val(meth(bc, backend=op["backend"], **kw))}
+                return {"val": _val(meth(bc, backend=op["backend"], **akw, **kw))}
             if via == "apply_out":
-                res = f.apply_operator(op["name"], bc, backend=op["backend"], **kw)
+                res = f.apply_operator(op["name"], bc, backend=op["backend"], **akw, **kw)
                 out = res.copy()
                 out.data = 0
-                res2 = f.apply_operator(op["name"], bc, out=out, backend=op["backend"], **kw)
+                res2 = f.apply_operator(op["name"], bc, out=out, backend=op["backend"], **akw, **kw)
                 return {"val": [_val(res2), res2 is out]}
             oper = f.grid.make_operator(op["name"], bc, backend=op["backend"], **kw)
             if via == "make_operator":
-                return {"val": _val(oper(f.data))}
-            out = np.zeros_like(oper(f.data))
-            oper(f.data, out=out)
+                return {"val": _val(oper(f.data, **akw))}
+            out = np.zeros_like(oper(f.data, **akw))
+            oper(f.data, out=out, **akw)
             return {"val": _val(out)}
+        if kind == "insert":
+            fs = h["fields"][op["f"]]
+            gspec = h["grids"][fs["grid"]]
+            f = R.field(op["f"]).copy()
+            pts = points_for(gspec, op["pts_seed"], 1)
+            amount = 1.5 if fs["rank"] == 0 else np.full((f.grid.dim,) * fs["rank"], 1.5)
+            f.insert(pts[0], amount)
+            return {"val": [_val(f), _val(f.integral)]}
         if kind == "interp":
             fs = h["fields"][op["f"]]
             gspec = h["grids"][fs["grid"]]
             f = R.field(op["f"])
-            pts = points_for(gspec, op["pts_seed"], op["n"])
             bc = None if op.get("bc") is None else build_bc(op["bc"], gspec)
+            pts = points_for(gspec, op["pts_seed"], op["n"], outside=op.get("fill") is not None and bc is None)
             if op["via"] == "interpolate":
                 return {"val": _val(f.interpolate(pts, bc=bc, fill=op.get("fill")))}
             if bc is not None:
